@@ -5,7 +5,7 @@
 mod light;
 use light::*;
 use proptest::prelude::*;
-use rlib_treap::{Treap, TreapNode};
+use rlib_treap::{Treap, TreapNode, TreePrinter};
 use serde::{Deserialize, Serialize};
 use std::sync::atomic::{AtomicBool, AtomicUsize, Ordering};
 use std::sync::Arc;
@@ -30,6 +30,9 @@ struct ThreadOut {
     t_last_ns: u64,
     height: usize,
     size: usize,
+    /// hash of the tree rendering (TreePrinter + Debug) taken while the other threads were still running
+    #[serde(default)]
+    render: u64,
 }
 
 #[derive(Serialize, Deserialize, Default)]
@@ -38,6 +41,15 @@ struct ChildOut {
 }
 
 const CAP: usize = 1024;
+
+fn render(t: &Treap<Lt>) -> String {
+    format!("{:?}\n{:?}", TreePrinter::new(t), t)
+}
+
+thread_local! {
+    /// the final tree of the script that ran on this thread (taken by the spawning code to re-render it in quiescence)
+    static FINAL_TREE: std::cell::RefCell<Option<Treap<Lt>>> = std::cell::RefCell::new(None);
+}
 
 /// One thread's script: create nodes (recording their priorities), insert them, keep the treap bounded,
 /// compare with a Vec model throughout.
@@ -114,6 +126,13 @@ fn script_until(n: u32, seed: u32, yield_every: u16, t0: Instant, stop: Option<A
         if t.size() != m.len() && err.is_none() {
             err = Some(format!("creation {}: size() = {}, model {}", i, t.size(), m.len()));
         }
+        if i % 4096 == 1 && err.is_none() {
+            // rendering is a pure function of the (thread-owned) tree: two renderings in a row must be identical
+            let (a, b) = (render(&t), render(&t));
+            if a != b {
+                err = Some(format!("creation {}: two consecutive renderings of the same thread-owned treap differ (lengths {} and {})", i, a.len(), b.len()));
+            }
+        }
     }
     let got: Vec<u32> = t.collect().into_iter().map(|x| x.val).collect();
     if got != m && err.is_none() {
@@ -129,7 +148,29 @@ fn script_until(n: u32, seed: u32, yield_every: u16, t0: Instant, stop: Option<A
     out.height = sh.height;
     out.size = sh.nodes;
     out.err = err;
+    out.render = vcore::hash_of(&render(&t));
+    FINAL_TREE.with(|f| *f.borrow_mut() = Some(t));
     out
+}
+
+/// run a script on this thread and hand back its final tree as well
+fn script_with_tree(n: u32, seed: u32, ye: u16, t0: Instant, stop: Option<Arc<AtomicBool>>) -> (ThreadOut, Option<Treap<Lt>>) {
+    let o = script_until(n, seed, ye, t0, stop);
+    let t = FINAL_TREE.with(|f| f.borrow_mut().take());
+    (o, t)
+}
+
+/// after all threads have been joined: the rendering taken under concurrency must equal a quiescent rendering
+fn recheck_renderings(mut outs: Vec<(ThreadOut, Option<Treap<Lt>>)>) -> Vec<ThreadOut> {
+    for (i, (o, t)) in outs.iter_mut().enumerate() {
+        if let Some(t) = t {
+            let quiet = vcore::hash_of(&render(t));
+            if quiet != o.render && o.err.is_none() {
+                o.err = Some(format!("thread {}: the rendering of its final treap taken while other threads were running differs from the rendering of the same treap after all threads were joined", i));
+            }
+        }
+    }
+    outs.into_iter().map(|(o, _)| o).collect()
 }
 
 fn child(mode: &str, spec: &Spec) -> ChildOut {
@@ -155,11 +196,11 @@ fn child(mode: &str, spec: &Spec) -> ChildOut {
             let stop = Arc::new(AtomicBool::new(false));
             let (n, seed, ye, _) = spec.threads[0];
             let st = stop.clone();
-            let worker = std::thread::spawn(move || script_until(n, seed, ye, t0, Some(st)));
-            let mut outs: Vec<ThreadOut> = Vec::new();
+            let worker = std::thread::spawn(move || script_with_tree(n, seed, ye, t0, Some(st)));
+            let mut outs: Vec<(ThreadOut, Option<Treap<Lt>>)> = Vec::new();
             let mut k = 0u32;
             while k < count {
-                let batch: Vec<_> = (0..32.min(count - k)).map(|j| std::thread::spawn(move || script(short_n as u32, 1000 + k + j, 0, t0))).collect();
+                let batch: Vec<_> = (0..32.min(count - k)).map(|j| std::thread::spawn(move || script_with_tree(short_n as u32, 1000 + k + j, 0, t0, None))).collect();
                 k += batch.len() as u32;
                 for h in batch {
                     outs.push(h.join().unwrap());
@@ -168,7 +209,7 @@ fn child(mode: &str, spec: &Spec) -> ChildOut {
             stop.store(true, Ordering::Release);
             let mut all = vec![worker.join().unwrap()];
             all.extend(outs);
-            ChildOut { threads: all }
+            ChildOut { threads: recheck_renderings(all) }
         }
         _ => {
             let go = Arc::new(AtomicBool::new(false));
@@ -188,7 +229,7 @@ fn child(mode: &str, spec: &Spec) -> ChildOut {
                         for _ in 0..spin {
                             std::hint::spin_loop();
                         }
-                        script(n, seed, ye, t0)
+                        script_with_tree(n, seed, ye, t0, None)
                     })
                 })
                 .collect();
@@ -196,7 +237,7 @@ fn child(mode: &str, spec: &Spec) -> ChildOut {
                 std::thread::yield_now();
             }
             go.store(true, Ordering::Release);
-            ChildOut { threads: hs.into_iter().map(|h| h.join().unwrap()).collect() }
+            ChildOut { threads: recheck_renderings(hs.into_iter().map(|h| h.join().unwrap()).collect()) }
         }
     }
 }
@@ -343,7 +384,7 @@ fn main() {
         "A case is a concurrent workload: 2..=8 threads, each with a script of 20k..200k node creations (TreapNode::new / \
          Treap::from_item) interleaved with split/merge/remove/first/last on a thread-owned treap, generated yield/spin jitter, a \
          yield start gate; each workload runs in a fresh child process. Oracle: (1) every thread's observations and final content equal \
-         its own Vec model, (2) heap order and height bound in every thread's treap, (3) history invariant on the per-thread priority \
+         its own Vec model, and renderings of its treap (TreePrinter, Debug) taken under concurrency equal consecutive and quiescent renderings, (2) heap order and height bound in every thread's treap, (3) history invariant on the per-thread priority \
          streams: either the union of all draws is exactly a prefix of the sequential stream and each thread's draws are a subsequence \
          of it (one synchronised generator), or every thread sees the stream a lone thread sees (per-thread generators); which of the \
          two applies is learnt from token-passing sequential runs of the library itself. Non-trivial = at least two threads' creation \
